@@ -8,7 +8,8 @@ import (
 
 func TestReplay(t *testing.T) {
 	verif.ReplayMain(map[string]func(){
-		"HarnessCancelDuringTraffic": HarnessCancelDuringTraffic,
-		"HarnessWSCorrelation":       HarnessWSCorrelation,
+		"HarnessCancelDuringTraffic":        HarnessCancelDuringTraffic,
+		"HarnessUnencodableCallAmongOthers": HarnessUnencodableCallAmongOthers,
+		"HarnessWSCorrelation":              HarnessWSCorrelation,
 	})
 }
